@@ -128,10 +128,15 @@ PROPS = {
                 "as they are (must print back identically), 15% with white space injected, 25% near misses (one byte "
                 "deleted/inserted/swapped), 15% random bytes over the grammar's alphabet; printed signature, IDL name and "
                 "reflect type string compared with the model; fixed point checked on everything accepted; thorough adds "
-                "all signatures of depth<=2/width<=2 over {i,s,m}",
+                "all signatures of depth<=2/width<=2 over {i,s,m}; 10 (thorough 15) texts nested 999 … 9,000,000 levels "
+                "(lists, maps, unclosed, closed before opened) in child processes: an error or a type, at and around MaxDepth "
+                "compared with the model",
         "assumptions": [
             "goparsec combinator semantics as transcribed in Model/Peg.lean from parsec.go/tokeniser.go/scanner.go",
             "Go regexp leftmost-first semantics for the two token patterns (hand-written matchers)",
+            "the depth of the parser's calls is proportional to the nesting of the text; the finite stack of a goroutine is not "
+            "modelled: the bound MaxDepth (1000 levels, tied) keeps the depth far below it, and the probes sig.deep (nesting 999 … "
+            "9 million, in child processes) sample that the process survives",
         ],
     },
     "C02": {
